@@ -20,6 +20,7 @@ const (
 	volumeDescriptorHeaderSize           = 7
 	volumeDescriptorBodySize             = sectorSize - volumeDescriptorHeaderSize
 	pathTableItemsLimit                  = 0x10000
+	maxDirectoryEntrySize      sizeBytes = 0xFF // record length is stored in one byte
 
 	volumeTypeBoot          byte = 0
 	volumeTypePrimary       byte = 1
